@@ -7,6 +7,7 @@ of the correspondence (stream `theorem`).  `C10_table` discharges the style-leve
 the generated style table; `C10_n_runs` lifts one repeated run to any number of runs.
 -/
 import ReuseVerif.Lemmas.Idem
+import ReuseVerif.Lemmas.ReadBack
 import ReuseVerif.Theorems.C08
 namespace C10
 open Py Model Spec C08L C10L
@@ -101,6 +102,43 @@ theorem C10_idem_crlf_partial {c : HdrCfg} {info : Extracted} {t a hdr b : Text}
     text, before an empty line followed by code, by a comment of the same style, by a terminator line.  In
     particular a multi-line opener is not taken for a single-line comment (Julia's `#=`). -/
 theorem C10_table : ∀ s ∈ Generated.styles, s.singleRe = none → ∀ m, supported s m = true → StyleIdem s m := by
+  decide +kernel
+
+/-- **Table obligation, single-line mode.**  Every style of the generated table that writes single-line comments
+    satisfies `SingleOK`: marker and indentation contain no line boundary, an empty line is not a comment (the
+    marker is non-empty; a regular-expression marker — Lisp — cannot match the empty string), and the multi-line
+    opener neither is a prefix of nor extends `marker + indentation`. -/
+theorem C10_single_table : ∀ s ∈ Generated.styles, s.canSingle = true → s.isEmptyStyle = false → SingleOK s := by
+  decide +kernel
+
+/-- **Single-line read-back for every header text.**  For every style of the table that writes single-line
+    comments (the default mode), every text whose only line boundary is `\n`, and whatever follows the header's
+    line end — the end of the text, or an empty line and then anything: `comment_at_first_character` returns
+    exactly the block `create_comment` produced.  (The multi-line mode is decided on representative texts by
+    `C10_table`.) -/
+theorem C10_single_readback (s : Generated.Style) (hs : s ∈ Generated.styles) (hc : s.canSingle = true)
+    (he : s.isEmptyStyle = false) (text : Text) (hno : NoExoticBreaks text) (blk : Text)
+    (hblk : createComment s text false = .ok blk) (rest : Text) (hrest : rest = [] ∨ ∃ r, rest = '\n' :: r) :
+    commentAtFirst s (blk ++ '\n' :: rest) = .ok blk := by
+  have hS := C10_single_table s hs hc he
+  have : createComment s text false = createSingle s text := by simp [createComment, he, hc]
+  rw [this] at hblk
+  exact single_readback hS text hno blk hblk rest hrest
+
+example : ∃ s ∈ Generated.styles, s.name = "LispCommentStyle" ∧ s.canSingle = true ∧ s.isEmptyStyle = false := by decide
+
+/-! ### non-vacuity
+
+(`secondRunOK` holds on most cases of stream `theorem` — counted as the stream's non-trivial cases on every run; it
+calls the regular-expression reader, which the kernel cannot evaluate, so no closed example is stated here.) -/
+
+example : ∃ s ∈ Generated.styles, s.name = "JuliaCommentStyle" ∧ s.singleRe = none ∧ supported s true = true := by decide
+example : aboveOf "#!/bin/sh \n".toList = "#!/bin/sh\n\n".toList ∧ belowOf "x\n".toList false = "\nx\n".toList := by decide
+example : placeHeader "# h".toList (aboveOf "#!/bin/sh \n".toList) (belowOf "x\n".toList false) true =
+    "#!/bin/sh\n\n# h\n\nx\n".toList := by decide
+/-- the style predicate excludes something: a Julia-like style whose reader tries the single-line marker on the
+    opener line is the defect this property found; here, a style whose terminator equals its opener is refused -/
+example : ¬ StyleIdem (⟨"X", "x", [], none, [], "%%".toList, [], "%%".toList, [], [], [], []⟩ : Generated.Style) true := by
   decide +kernel
 
 end C10
